@@ -1,9 +1,9 @@
 /-
   Soundness of the enclosure oracle, part 8: `Spec.trueValue` for the logarithm family.
 
-  The certified logarithm `Encl.log` starts from a `Float` guess, so nothing can be proved about the
-  magnitude of the bracket it returns; the theorems take the explicit, checkable hypothesis
-  `LogOk q k := ∀ l, Encl.log q k = some l → |l.lo| ≤ 10^60 ∧ |l.hi| ≤ 10^60` (in practice |l| < 15000).
+  The certified logarithm `Encl.log` starts from a `Float` guess (opaque to the kernel); nothing needs to be
+  known about it: a bracket is returned only if both ends pass the one-sided `exp` tests, and those are sound
+  without side conditions since `Encl.exp` is guarded.
 
   0. `signSplit_sound` : the common "positive / negative / undecided" tail of `trueValue`
      `ln2_inv_sound : 1 / Real.log 2 ∈ᵢ ln2.invPos`, `ln10_inv_sound : 1 / Real.log 10 ∈ᵢ ln10.invPos`
@@ -20,9 +20,6 @@ set_option autoImplicit false
 
 namespace EnclPf
 open Spec Spec.Encl SpecRound
-
-/-- the checkable side condition on the bracket returned by the certified logarithm -/
-def LogOk (q : ℚ) (k : Int) : Prop := ∀ l, Encl.log q k = some l → |l.lo| ≤ 10 ^ 60 ∧ |l.hi| ≤ 10 ^ 60
 
 /-! ## 0. helpers -/
 
@@ -74,41 +71,40 @@ theorem log_X (n : Bool) (c : Nat) (e : Int) :
 
 /-- the enclosure returned by `Encl.log c e` contains `log |X|` -/
 theorem log_call_sound {n : Bool} {c : Nat} {e : Int} {l : I} (hc0 : c ≠ 0)
-    (hok : LogOk (c : ℚ) e) (h : Encl.log (c : ℚ) e = some l) : Real.log (X n c e) ∈ᵢ l := by
+    (h : Encl.log (c : ℚ) e = some l) : Real.log (X n c e) ∈ᵢ l := by
   rw [log_X]
-  obtain ⟨b1, b2⟩ := hok l h
-  exact log_sound' (by exact_mod_cast Nat.pos_of_ne_zero hc0) h b1 b2
+  exact log_sound (by exact_mod_cast Nat.pos_of_ne_zero hc0) h
 
 /-! ## 1. log, log2, log10 -/
 
 theorem trueValue_log_sound (n : Bool) (c : Nat) (e : Int) (tn : Bool) (t : Sci) (hc0 : c ≠ 0)
-    (hok : LogOk (c : ℚ) e) (h : trueValue .log n c e = some (tn, t)) :
+    (h : trueValue .log n c e = some (tn, t)) :
     ∃ T : ℝ, 0 < T ∧ T ∈ₛ t ∧ Real.log (X n c e) = if tn then -T else T := by
   rw [trueValue_log_eq] at h
   split at h
   · exact absurd h (by simp)
   · rename_i l hl
-    exact signSplit_sound (log_call_sound hc0 hok hl) h
+    exact signSplit_sound (log_call_sound hc0 hl) h
 
 theorem trueValue_log2_sound (n : Bool) (c : Nat) (e : Int) (tn : Bool) (t : Sci) (hc0 : c ≠ 0)
-    (hok : LogOk (c : ℚ) e) (h : trueValue .log2 n c e = some (tn, t)) :
+    (h : trueValue .log2 n c e = some (tn, t)) :
     ∃ T : ℝ, 0 < T ∧ T ∈ₛ t ∧ Real.logb 2 (X n c e) = if tn then -T else T := by
   rw [trueValue_log2_eq] at h
   split at h
   · exact absurd h (by simp)
   · rename_i l hl
-    have hv := mem_mul (log_call_sound (n := n) hc0 hok hl) ln2_inv_sound
+    have hv := mem_mul (log_call_sound (n := n) hc0 hl) ln2_inv_sound
     rw [mul_one_div, Real.log_div_log] at hv
     exact signSplit_sound hv h
 
 theorem trueValue_log10_sound (n : Bool) (c : Nat) (e : Int) (tn : Bool) (t : Sci) (hc0 : c ≠ 0)
-    (hok : LogOk (c : ℚ) e) (h : trueValue .log10 n c e = some (tn, t)) :
+    (h : trueValue .log10 n c e = some (tn, t)) :
     ∃ T : ℝ, 0 < T ∧ T ∈ₛ t ∧ Real.logb 10 (X n c e) = if tn then -T else T := by
   rw [trueValue_log10_eq] at h
   split at h
   · exact absurd h (by simp)
   · rename_i l hl
-    have hv := mem_mul (log_call_sound (n := n) hc0 hok hl) ln10_inv_sound
+    have hv := mem_mul (log_call_sound (n := n) hc0 hl) ln10_inv_sound
     rw [mul_one_div, Real.log_div_log] at hv
     exact signSplit_sound hv h
 
@@ -153,7 +149,6 @@ theorem log1p_tiny_neg {x δ : ℝ} (h0 : 0 ≤ x) (h1 : 2 * x ≤ δ) (hδ : δ
 
 theorem trueValue_log1p_sound (n : Bool) (c : Nat) (e : Int) (tn : Bool) (t : Sci)
     (hc0 : c ≠ 0) (hc : c < 10 ^ 35) (hdom : n = true → |X n c e| < 1)
-    (hok1 : LogOk (c : ℚ) e) (hok2 : LogOk (1 + (Val.fin n c e).toRat) 0)
     (h : trueValue .log1p n c e = some (tn, t)) :
     ∃ T : ℝ, 0 < T ∧ T ∈ₛ t ∧ Real.log (1 + X n c e) = if tn then -T else T := by
   rw [trueValue_log1p_eq] at h
@@ -207,7 +202,7 @@ theorem trueValue_log1p_sound (n : Bool) (c : Nat) (e : Int) (tn : Bool) (t : Sc
       · rename_i l hl
         simp only [Option.some.injEq, Prod.mk.injEq] at h
         obtain ⟨rfl, rfl⟩ := h
-        have hv := log_call_sound (n := false) hc0 hok1 hl
+        have hv := log_call_sound (n := false) hc0 hl
         have hXv : X false c e = (c : ℝ) * (10 : ℝ) ^ e := by rw [X_eq]; simp
         have hXpos : 0 < X false c e := by rw [hXv]; linarith
         refine ⟨Real.log (1 + X false c e), Real.log_pos (by linarith),
@@ -239,7 +234,6 @@ theorem trueValue_log1p_sound (n : Bool) (c : Nat) (e : Int) (tn : Bool) (t : Sc
   split at h
   · exact absurd h (by simp)
   · rename_i l hl
-    obtain ⟨b1, b2⟩ := hok2 l hl
     have hpos : (0 : ℚ) < 1 + (Val.fin n c e).toRat := by
       have hr : (0 : ℝ) < 1 + X n c e := by
         cases n
@@ -250,7 +244,7 @@ theorem trueValue_log1p_sound (n : Bool) (c : Nat) (e : Int) (tn : Bool) (t : Sc
       have : ((0 : ℚ) : ℝ) < ((1 + (Val.fin n c e).toRat : ℚ) : ℝ) := by
         push_cast; exact hr
       exact_mod_cast this
-    have hv := log_sound' hpos hl b1 b2
+    have hv := log_sound hpos hl
     have e1 : (((1 + (Val.fin n c e).toRat : ℚ)) : ℝ) * (10 : ℝ) ^ (0 : Int) = 1 + X n c e := by
       unfold X; push_cast; simp
     rw [e1] at hv
